@@ -24,6 +24,10 @@
 (* 0.25 and are merged only when merge_vertices is asked for zero digits   *)
 (* (option dv); slots with the same id differ by < 1e-8 (merge tolerance). *)
 (* uv / normal classes: u div 2 is the class at coarse digits (du / dn).   *)
+(* uv classes 4..11 are classes 0..3 moved by one or two whole texture     *)
+(* repeats: different coordinates like any other (a seam vertex keeps its  *)
+(* own uv).  Operands of a concatenation may have vertices and no faces,   *)
+(* or nothing at all: their slots are part of the stacked original.        *)
 (* Row 5 lies on the segment of rows 1 and 2: exact zero-area triangles    *)
 (* with three distinct corners.                                            *)
 (*                                                                         *)
@@ -210,7 +214,7 @@ OrderOnly(c, T) == \A m \in 1..Len(T) :
 
 \* the same question with everything a corner carries (split copies vertices, so tags are exact): the
 \* faces of every part are the expected ones with their data, as a bag, whatever their order
-CornerCode(p, tag, u, x) == ((p * 40 + (tag + 1)) * 8 + (u + 1)) * 8 + (x + 1)
+CornerCode(p, tag, u, x) == ((p * 40 + (tag + 1)) * 16 + (u + 1)) * 8 + (x + 1)
 OrigFullKey(c, out, t) == LeastRot([j \in 1..3 |->
     LET s == Fc(c, t)[j] IN
     CornerCode(P(c, s), IF out.vc.has \/ out.va.has THEN s ELSE -1,
